@@ -158,7 +158,8 @@ Definition genv_eqb (R : N) (a b : N * gmsg) : bool := N.eqb (fst a) (fst b) && 
 
 (* per step: Lamport clock and per-member dump of the touched manager, envelopes it sent *)
 Definition mobs := (N * list (option upd) * list (N * gmsg))%type.
-Definition mgr_case := (N * N * bool * list mop * list mobs)%type.
+(* (R, max_incarnation_delta, expire, full: every manager starts out knowing every other one (else: none), ops, obs) *)
+Definition mgr_case := (N * N * bool * bool * list mop * list mobs)%type.
 
 (* oracle state over the implementation's observations: last (clock, dump) seen per manager and the
    highest incarnation each member announced in an Alive of its own *)
@@ -167,17 +168,20 @@ Definition announce (r : N) (an : list (N * N)) (out : list (N * gmsg)) : list (
   fold_left (fun an dm => match snd dm with
                           | GAliv n i => if N.eqb n r then aset an n (N.max (ann_of an n) i) else an
                           | _ => an end) out an.
+(* a member's own announcements move forward: every Alive it sends about itself in one step carries a higher
+   incarnation than anything it announced in earlier steps (first clause of oracle_mgr) *)
 Definition oracle_mgr (o : ostate) (r : N) (ob : mobs) : option ostate :=
   let '(last, an) := o in
   let '(c, d, out) := ob in
   let an' := announce r an out in
-  if negb (match aget last r with Some (c0, d0) => N.leb c0 c && dump_mono d0 d | None => true end) then None
+  if negb (forallb (fun dm => match snd dm with GAliv n i => if N.eqb n r then N.ltb (ann_of an r) i else true | _ => true end) out) then None
+  else if negb (match aget last r with Some (c0, d0) => N.leb c0 c && dump_mono d0 d | None => true end) then None
   else if negb (bounded_dump an' 0 d) then None
   else Some (aset last r (c, d), an').
 
 Definition touched_of (s : msys) (o : mop) : N :=
   match o with
-  | MRound r _ | MSuspectNode r _ => r
+  | MRound r _ | MSuspectNode r _ | MAddPeer r _ => r
   | MDeliver k => match nth_error (mpool s) (N.to_nat k) with Some (dst, _) => dst | None => 0 end
   end.
 
@@ -201,5 +205,5 @@ Fixpoint mwalk (R maxd : N) (ex : bool) (s : msys) (o : ostate) (ops : list mop)
   end.
 
 Definition check_mgr (c : mgr_case) : N :=
-  let '(R, maxd, ex, ops, os) := c in
-  mwalk R maxd ex (minit sup R) ([], []) ops os false.
+  let '(R, maxd, ex, full, ops, os) := c in
+  mwalk R maxd ex (minitP sup R (if full then all_others R else fun _ => [])) ([], []) ops os false.
